@@ -8,6 +8,10 @@ const Enabled = false
 // Yield marks a point at which the calling goroutine holds no lock and may be descheduled.
 func Yield(site string) {}
 
+// YieldL is Yield for goroutines started in a loop over a map: label tells the siblings apart
+// (a database index, a peer address) so that the harness can order them independently of start-up order.
+func YieldL(site string, label any) {}
+
 // Spin marks one iteration of a busy-wait loop.
 func Spin(site string) {}
 
